@@ -5,7 +5,9 @@ import (
 	"fmt"
 	"hash/fnv"
 	"os"
+	"os/exec"
 	"path/filepath"
+	"sort"
 	"strings"
 	"time"
 
@@ -169,7 +171,11 @@ func (e *containerEngine) exec(c *Case, tape *Tape) *RunOut {
 	out.Violations = a.evaluate()
 	if raceWorker() {
 		if rep := collectRaceReport(); rep != "" {
-			out.Violations = append(out.Violations, Violation{Prop: "C09", Rule: "C09.race", Shape: raceShape(rep), Msg: rep})
+			shape := raceShape(rep)
+			if shape == "harness-internal" {
+				trouble("race report inside the simulator/harness itself:\n%s", rep)
+			}
+			out.Violations = append(out.Violations, Violation{Prop: "C09", Rule: "C09.race", Shape: shape, Msg: rep})
 		}
 	}
 	out.Steps = h.sim.Steps()
@@ -348,6 +354,23 @@ func (e *containerEngine) Minimise(prop, tier string, idx int, tapes [nStreams][
 		out, _ := e.runTapes(prop, tier, idx, t)
 		return hasViolation(out, v) != nil
 	}
+	if v.Rule == "C09.race" {
+		// the race detector reports a given race once per process: every
+		// attempt runs in a fresh process
+		try = func(t [nStreams][]int32) bool {
+			return subprocessTry(&ReplayFile{Property: prop, Rule: v.Rule, Shape: v.Shape, Tier: tier, Run: idx, Tapes: tapesToMap(t)})
+		}
+		cur := tapes
+		minimised := false
+		if try(cur) {
+			cur = shrinkTapes(cur, try, deadline)
+			minimised = true
+		}
+		tape := ReplayTape(cur)
+		c := decodeCase(prop, tier, idx, tape)
+		return &ReplayFile{Property: prop, Rule: v.Rule, Shape: v.Shape, Message: v.Msg, Engine: e.Name(),
+			Tapes: tapesToMap(cur), Case: c.Describe(), Minimised: minimised}
+	}
 	cur := tapes
 	minimised := false
 	if try(cur) {
@@ -472,32 +495,51 @@ func collectRaceReport() string {
 	return rep
 }
 
-// raceShape: the two innermost godi frames of the first report.
+// raceShape: the innermost frame of each of the two accesses of the first
+// report, when both are godi code; "harness-internal" when either access is in
+// the simulator runtime or the harness itself (that is a defect of this
+// machinery and is reported as trouble, never as a violation).
 func raceShape(rep string) string {
 	var frames []string
 	lines := strings.Split(rep, "\n")
 	for i, l := range lines {
 		l = strings.TrimSpace(l)
-		if (strings.HasPrefix(l, "Read at") || strings.HasPrefix(l, "Write at") || strings.HasPrefix(l, "Previous")) && len(frames) < 2 {
-			// first frame line mentioning godi below this header
-			for j := i + 1; j < len(lines) && j < i+24; j++ {
-				f := strings.TrimSpace(lines[j])
-				if f == "" {
-					break
+		if (strings.HasPrefix(l, "Read at") || strings.HasPrefix(l, "Write at") || strings.HasPrefix(l, "Previous") ||
+			strings.HasPrefix(l, "Atomic")) && len(frames) < 2 && i+1 < len(lines) {
+			f := strings.TrimSpace(lines[i+1])
+			switch {
+			case strings.Contains(f, "/simrt.") || strings.HasPrefix(f, "main."):
+				return "harness-internal"
+			case strings.Contains(f, "junioryono/godi/v4"):
+				if k := strings.LastIndex(f, "/v4"); k >= 0 {
+					f = f[k+3:]
 				}
-				if strings.Contains(f, "junioryono/godi/v4.") || strings.Contains(f, "junioryono/godi/v4/internal") {
-					if k := strings.LastIndex(f, "/v4"); k >= 0 {
-						f = f[k+3:]
+				frames = append(frames, strings.TrimSuffix(strings.TrimPrefix(f, "."), "()"))
+			default:
+				// runtime / reflect frame on top: use the first godi frame below it
+				for j := i + 2; j < len(lines) && j < i+30; j++ {
+					g := strings.TrimSpace(lines[j])
+					if g == "" {
+						break
 					}
-					frames = append(frames, strings.TrimSuffix(strings.TrimPrefix(f, "."), "()"))
-					break
+					if strings.Contains(g, "/simrt.") || strings.HasPrefix(g, "main.") {
+						return "harness-internal"
+					}
+					if strings.Contains(g, "junioryono/godi/v4") {
+						if k := strings.LastIndex(g, "/v4"); k >= 0 {
+							g = g[k+3:]
+						}
+						frames = append(frames, strings.TrimSuffix(strings.TrimPrefix(g, "."), "()"))
+						break
+					}
 				}
 			}
 		}
 	}
-	if len(frames) == 0 {
-		return "no-godi-frame"
+	if len(frames) < 2 {
+		return "harness-internal"
 	}
+	sort.Strings(frames)
 	return strings.Join(frames, "~")
 }
 
@@ -554,4 +596,29 @@ func levelOf(prop string) string {
 		return "fault_enumeration"
 	}
 	return "exploration"
+}
+
+// subprocessTry replays rf in a fresh process of this binary; true iff the
+// recorded (property, rule, shape) reproduces there.
+func subprocessTry(rf *ReplayFile) bool {
+	f, err := os.CreateTemp("", "verif-try-*.json")
+	if err != nil {
+		return false
+	}
+	defer os.Remove(f.Name())
+	b, _ := json.Marshal(rf)
+	f.Write(b)
+	f.Close()
+	return subprocessReplay(f.Name())
+}
+
+func subprocessReplay(path string) bool {
+	self, _ := os.Executable()
+	cmd := exec.Command(self, "replay", path)
+	cmd.Env = os.Environ()
+	err := cmd.Run()
+	if ee, ok := err.(*exec.ExitError); ok {
+		return ee.ExitCode() == 1
+	}
+	return false
 }
